@@ -70,13 +70,13 @@ Qed.
 Lemma less_box_spec b ax sv p : inbox b p -> nth ax p 0 <= sv -> inbox (less_box b ax sv) p.
 Proof.
   unfold inbox, less_box; destruct b as [l h]; simpl. intros H Hc.
-  first [ apply inbox_upd_hi; assumption | apply inbox_upd_lo; assumption ].
+  first [ apply inbox_upd_hi; assumption | apply inbox_upd_lo; assumption | exact H ].
 Qed.
 
 Lemma more_box_spec b ax sv p : inbox b p -> sv <= nth ax p 0 -> inbox (more_box b ax sv) p.
 Proof.
   unfold inbox, more_box; destruct b as [l h]; simpl. intros H Hc.
-  first [ apply inbox_upd_lo; assumption | apply inbox_upd_hi; assumption ].
+  first [ apply inbox_upd_lo; assumption | apply inbox_upd_hi; assumption | exact H ].
 Qed.
 
 (* ---------------------------------------------------------------- AABB.distance: the excess is a lower bound *)
